@@ -35,9 +35,10 @@ for d in sorted(glob.glob('seeded/C*-*')):
             cells.append(f"{c} {last['tier']}: run inconclusive (exit {last['exit']})")
     note=m.get('note_verdict','')
     rows.append(f"| {name} | {summ} | {needs} | {'; '.join(cells) if cells else 'not run yet'}{(' — '+note) if note else ''} |")
-caught=sum(1 for r in rows if 'caught' in r and 'missed**' not in r)
+caught=sum(1 for r in rows if 'caught**' in r)
+own=sum(1 for r in rows if 'caught**' in r and 'missed**' not in r)
 text="Each row is one change written by a fresh sub-agent that saw only the property text (never /verif), confirmed by me in a scratch worktree\n(`tools/seed_confirm.sh`: the repository's full suite passes with the patch, the author's demonstration fails with it and passes without it), stored under\n`seeded/<property>-<n>/` (patch.diff, demo/, meta.json, runs.jsonl) and then applied to /repo, checked (`tools/seed_run.sh`) and reverted.\n\n"
-text+=f"{len(rows)} changes in two rounds, {caught} caught by the check of the property they target (after the strengthening described below the table).\n\n"
+text+=f"{len(rows)} changes in three rounds, {caught} caught after the strengthening described below the table: {own} by the check of the property they were written against, {caught-own} by the check of the neighbouring property they actually break (the row says which and why).\n\n"
 text+="| change | what was changed | needs | outcome |\n|---|---|---|---|\n"+"\n".join(rows)+"\n"
 text+="""
 **First pass: 28 of 40 caught.**  What the twelve misses showed, and what was changed (each change was then re-run against the seeded change *and* against the unchanged tree at several seeds):
@@ -98,7 +99,20 @@ After strengthening: 80 of 80 caught.
 | C17-5 | `profilebegin` / `assert` only existed on `debug`, on locals and as globals | the same field names on other global tables (`Profiler.profilebegin(..)`) |
 | C17-6 | removed calls never used the table-call syntax | `assert { [ext()] = true, f = ext() }`, `debug.profilebegin { .. }` with effects in keys and values |
 
-After strengthening: 100 of 100 caught.  The three rounds say the same thing: every monitor catches what its workload contains, roughly 40 % of independently
+After strengthening: 100 of 100 caught.
+
+**Third round, second half** (the other ten properties: C03, C07, C08, C09, C13, C14, C16, C18, C19, C20): first pass 14 of 20 caught.  The six misses:
+
+| missed | why the check was blind | strengthening |
+|---|---|---|
+| C03-6 | interpolated strings came from values or from two hand-written files: no literal piece had text but an empty value (`\\z` followed by blanks) | one generated case in twelve is a statement around a raw quoted / interpolated literal assembled from escape pieces (`\\z` + blanks, `\\z` + newline, line continuations, every escape form, `\\{`) with holes before, between and after them |
+| C07-5 | the position table held functions in four places but never as the value of a `[key] = value` table entry | eight more statement positions (function as bracket-key / named / positional table value, call argument, generic-for header, numeric-for bound, if condition, return value) and three more expression positions |
+| C13-5 | the change is in *reading* `\\ddd` escapes; C13 speaks about what darklua writes (reading is observed, not judged) and no program of the behaviour monitors held a control byte followed by a digit | string literals `\\001` + `0`, `é9`, `ESC[0m`, `\\000` + `007` among the generated programs' strings: C01 and C06 now report the changed result; C13 itself stays silent by design |
+| C16-5 | method-call receivers were names, parenthesised names, calls and a field of a literal table - reading them twice was never observable | receivers `P.fld` / `P[k]`, bare and parenthesised, on a proxy whose `__index` logs and returns the record (the earlier `h:meth()` on the all-metamethods object always raised and was discarded) |
+| C19-5 | the change is in the *memory* of the configuration fingerprint across passes, which no single parse/serialise observes | nothing to add to C19: the C10 histories (configuration changed, then changed back) report stale outputs |
+| C20-5 | the change is in the serialiser: rule filters do not reach the fingerprint | nothing to add to C20, whose single runs are unaffected: C19's distinguishability check reports `indistinguishable:..:differ[skip_files]` |
+
+After strengthening: 120 of 120 caught.  The three rounds say the same thing: every monitor catches what its workload contains, roughly 40 % of independently
 chosen shapes were missing at the time they were tried, and the misses cluster in input *shapes* (a rule option, a position, a file layout) rather than in the oracles — the only
 oracle-level corrections were the too-broad tolerances (C10, C15), the reference run trusted for what counts as faulty (C11) and the confirmation step that dropped history-dependent failures.  The same caveat as for every sampled monitor applies: a seeded change is caught when the workload holds the shape it needs; the two rounds show that about a third of independently chosen shapes were missing at first, so more remain.  A change being caught by the check of *its* property is the minimum asked; several are also visible to neighbouring checks (the scope-visitor change of C01-2 / C09-2 to C01, C09, C16; the generator newline-counting change of C03-1 / C04-2 to C03 and C04; the string-form change of C02-2 / C14-1 to C02, C13, C14), which was not measured systematically.
 """
